@@ -5,7 +5,7 @@ import random
 import re
 
 from vf import clientsim, tlaval
-from vf.tlc import TLCFailure
+from vf.tlc import TLCFailure, parse_tagged
 import json
 
 CFGS = [dict(noise=False, login=False), dict(noise=True, login=False), dict(noise=False, login=True)]
@@ -51,7 +51,8 @@ def run_family(ctx, name: str, cases: list) -> dict:
 def run(ctx):
     ctx.rule = (
         "TLC: NeverWedged, RefusedOnlyWhenBusy, OneLive, GateSound over all histories of <= 3 connections / 14 steps of Client.tla; "
-        "families on the real APIClient: a disturbance (disconnect, force, peer close, EOF, reset, resolve/connect error, bad hello, bad password, "
+        "families on the real APIClient: TLC-generated histories (one per distinct state of a 2-connection / 9-step instance, translated to "
+        "environment events); a disturbance (disconnect, force, peer close, EOF, reset, resolve/connect error, bad hello, bad password, "
         "timeout, second start) at EVERY stage of a connect with every gap followed by fresh attempts; a stop callback that reconnects / issues a "
         "command in its first step, for every way a session can end; every public API method at every stage "
         "without an authenticated session; random multi-session histories; each trace validated by TLC (TraceClient.tla): pointer identity, state of "
@@ -59,7 +60,19 @@ def run(ctx):
     )
     rng = random.Random(ctx.seed + 19)
     ctx.tlc("MC_Client", coverage=True, timeout=1200)
+    # TLC-generated histories: one per distinct state of the client (MaxConn 2, 9 steps), shortest path first
+    r = ctx.tlc("MC_Client", "MC_Client_gen.cfg", workers=1, timeout=1200)
+    gen = []
+    for hook, toks in parse_tagged(sorted(set(r.raw_printed)), "SCHED"):
+        gen.append((hook, toks))
+    if len(gen) < 1000:
+        raise TLCFailure(f"MC_Client_gen printed only {len(gen)} histories")
+    ctx.extra["tlc_generated_histories"] = len(gen)
+    if ctx.quick:
+        gen = rng.sample(gen, 1500)
+    tlc_cases = [(dict(CFGS[i % len(CFGS)], hook=hook), clientsim.tokens_to_schedule(CFGS[i % len(CFGS)], toks, i)) for i, (hook, toks) in enumerate(gen)]
     fams = {
+        "tlc": tlc_cases,
         "stages": clientsim.stage_family(CFGS),
         "gate_sweep": clientsim.gate_sweep(CFGS),
         "stop_hook": clientsim.stop_hook_family(CFGS),
